@@ -44,7 +44,7 @@ SPEC = {
 }
 
 META = {
-    "engine": "lib-rapid + bb-server",
+    "engine": "lib-rapid", "also": ["bb-server"],
     "technique": "model-based stateful property testing (rapid state machine against a reference map + brute-force predicate evaluation)",
     "text": ("Generated histories of insert / flush / cache clear / close-reopen / lookup / search on one series index are executed through the exported "
              "index API; identifiers must be unique, stable and never shared, and every search and listing must equal brute-force evaluation over the "
